@@ -277,6 +277,30 @@ def run(ck):
             if v1 != v3 or v1 != freshv[n1]:
                 ck.fail_case({"query": f"adsorbate.{n1}", "clause": "outcome depends on the query history", "last_query": f"adsorbate.{n2} at another temperature"},
                              {"adsorbate": gas[0], "T": gas[1], "first": v1, "again": v3, "fresh": freshv[n1]})
+        # ... and pairs at the SAME temperature: b(T1) then a(T1) (a state left on the vapour side must not leak into a liquid-side property)
+        for n1, n2 in itertools.product(acc, acc):
+            if n1 == n2:
+                continue
+            a1 = pg.Adsorbate(ads.name, **dict(ads.properties))
+            try:
+                acc[n2](a1, gas[1])
+            except Exception:
+                pass
+            v = canon(acc[n1](a1, gas[1]))
+            ck.count((gas[0], n1, n2, "same-T"), bucket="targeted-pair:thermo same temperature")
+            if v != freshv[n1]:
+                ck.fail_case({"query": f"adsorbate.{n1}", "clause": "outcome depends on the query history", "last_query": f"adsorbate.{n2} at the same temperature"},
+                             {"adsorbate": gas[0], "T": gas[1], "after_history": v, "fresh": freshv[n1]})
+    # gas-basis read followed by liquid-basis read on one isotherm (same adsorbate state)
+    for sample in rng.sample(SAMPLES, 2):
+        objs = fresh(sample)
+        rf = outcome(lambda o: o["iso"].loading(loading_basis="volume_liquid", loading_unit="cm3"), fresh(sample))
+        outcome(lambda o: o["iso"].loading(loading_basis="volume_gas", loading_unit="cm3"), objs)
+        r = outcome(lambda o: o["iso"].loading(loading_basis="volume_liquid", loading_unit="cm3"), objs)
+        ck.count((sample, "gas-then-liquid"), bucket="targeted-pair:isotherm gas then liquid basis")
+        if r != rf:
+            ck.fail_case({"query": "loading(volume_liquid)", "clause": "outcome depends on the query history", "last_query": "loading(volume_gas) on the same isotherm"},
+                         {"sample": sample, "after_history": str(r)[:160], "fresh": str(rf)[:160]})
     # the same through isotherms of one adsorbate at two temperatures
     for sample in rng.sample(SAMPLES, 2):
         objs = fresh(sample)
